@@ -332,6 +332,21 @@ def r10_fallback_tree(ctx):
     ctx.floor('C02.R10', 'fallback-tree obligations', n, 1)
 
 
+def r11_lookup_key_ignores_lifetime_spelling(ctx):
+    ctx.rule('C02.R11', 'shared with C17.R10 / C17.R11: the constructor (and error handler) tables are keyed by the canonical form of the type, so whether '
+             'an injected type "has a constructor in scope" must not depend on how its lifetimes are spelled or on which arm of the canonicaliser a '
+             'generic is first met in: canonical lifetimes come from the counter only, and the counters / the name map are threaded positionally '
+             'through every recursive call.')
+    from .c17 import r10_accumulators_threaded, r11_lifetime_names_are_fresh
+    from ..engine import Ctx
+    side = Ctx(ctx.prop, ctx.fb, ctx.tier)
+    r10_accumulators_threaded(side)
+    r11_lifetime_names_are_fresh(side)
+    for ob in side.obs:
+        if 'canonicalize' in ob.key or ob.key.startswith(('floor:', 'fresh-lifetime')):
+            ctx.ob('C02.R11', ob.key, ob.ok, ob.loc, ob.detail, ob.nontrivial)
+
+
 def check(ctx):
     r1_exemptions_first(ctx)
     r2_control_flow_test(ctx)
@@ -343,3 +358,4 @@ def check(ctx):
     r8_exemptions_at_every_level(ctx)
     r9_bound_constructor_brings_its_matchers(ctx)
     r10_fallback_tree(ctx)
+    r11_lookup_key_ignores_lifetime_spelling(ctx)
